@@ -1500,7 +1500,7 @@ def _is_generated(name: str) -> bool:
     import re
     global _GENERATED
     if _GENERATED is None:
-        _GENERATED = re.compile(r"^(?:__inl\d+|.+__[A-Za-z]\w*?\d+)$")
+        _GENERATED = re.compile(r"^(?:__inl\d+|__tup\d+_\d+|__seg\d+_\d+|.+__[A-Za-z]\w*?\d+)$")
     return bool(_GENERATED.match(name))
 
 
@@ -1538,11 +1538,54 @@ def _coalesce_temp_copies(fn: ast.AST) -> None:
                         return r[0], r[1], r[2], r[3] + [(s_, other)] + [("pre", stmts[:j])]
         return None
 
+    def ordered_rename() -> bool:
+        """second form: `X = T` (T made up, bound any number of times - typically once on each arm of an `if`) where every other mention of X in the
+        function comes later in the same block and T is not mentioned there: the value only ever travels T -> X, so T is X"""
+        scoped = {id(x) for g in ast.walk(fn) if isinstance(g, (ast.FunctionDef, ast.AsyncFunctionDef, ast.Lambda, ast.ClassDef, ast.ListComp, ast.SetComp, ast.DictComp, ast.GeneratorExp))
+                  and g is not fn for x in ast.walk(g)}
+        loops = [g for g in ast.walk(fn) if isinstance(g, (ast.For, ast.While, ast.AsyncFor))]
+        for owner in ast.walk(fn):
+            for fld in ("body", "orelse", "finalbody"):
+                blk = getattr(owner, fld, None)
+                if not (isinstance(blk, list) and blk and isinstance(blk[0], ast.stmt)):
+                    continue
+                for j, c in enumerate(blk):
+                    if not (isinstance(c, ast.Assign) and len(c.targets) == 1 and isinstance(c.targets[0], ast.Name) and isinstance(c.value, ast.Name)):
+                        continue
+                    X, T = c.targets[0].id, c.value.id
+                    if X == T or not _is_generated(T) or id(c) in scoped:
+                        continue
+                    tail_ids = {id(x) for s_ in blk[j + 1:] for x in ast.walk(s_)}
+                    xs = [x for x in ast.walk(fn) if isinstance(x, ast.Name) and x.id == X and x is not c.targets[0]]
+                    ts = [x for x in ast.walk(fn) if isinstance(x, ast.Name) and x.id == T and x is not c.value]
+                    args_ = {a.arg for a in ast.walk(fn.args) if isinstance(a, ast.arg)} if hasattr(fn, "args") else set()
+                    if X in args_ or T in args_:
+                        continue
+                    if any(id(x) not in tail_ids or id(x) in scoped for x in xs) or any(id(x) in tail_ids or id(x) in scoped for x in ts):
+                        continue
+                    if not any(isinstance(x.ctx, ast.Store) for x in ts):
+                        continue
+                    if any(isinstance(x, (ast.Global, ast.Nonlocal)) for x in ast.walk(fn)):
+                        continue
+                    in_loop = any(id(c) in {id(y) for y in ast.walk(l)} for l in loops)
+                    if in_loop and any(isinstance(x.ctx, (ast.Store, ast.Del)) for x in xs):
+                        continue
+                    for x in ts:
+                        x.id = X
+                    del blk[j]
+                    if not blk:
+                        blk.append(ast.copy_location(ast.Pass(), c))
+                    return True
+        return False
+
     changed = True
     rounds = 0
-    while changed and rounds < 6:
+    while changed and rounds < 12:
         changed = False
         rounds += 1
+        if ordered_rename():
+            changed = True
+            continue
         stores: Dict[str, int] = {}
         for x in ast.walk(fn):
             if isinstance(x, ast.Name) and isinstance(x.ctx, (ast.Store, ast.Del)):
@@ -1652,9 +1695,305 @@ def _duplicate_merge_calls(tree: ast.Module) -> None:
                         do_block(b)
 
 
+def _dissolve_local_tuples(fn: ast.AST) -> None:
+    """C39: a local bound once to a tuple display of names / constants (`segments = (h, p, s)`), read only as `segments[<const>]` or as the whole right
+    side of an unpacking assignment of the same arity: each read is the element itself.  The element names must be bound at most once in the function
+    (parameters: never re-bound) and the binding must not stand in a loop, so that every read sees the values the display saw."""
+    parents: Dict[int, ast.AST] = {}
+    for p_ in ast.walk(fn):
+        for c_ in ast.iter_child_nodes(p_):
+            parents[id(c_)] = p_
+    stores: Dict[str, List[ast.Name]] = {}
+    loads: Dict[str, List[ast.Name]] = {}
+    for n in ast.walk(fn):
+        if isinstance(n, ast.Name):
+            (loads if isinstance(n.ctx, ast.Load) else stores).setdefault(n.id, []).append(n)
+    params = {a.arg for a in ast.walk(getattr(fn, "args", ast.arguments(posonlyargs=[], args=[], kwonlyargs=[], kw_defaults=[], defaults=[]))) if isinstance(a, ast.arg)}
+    for name, sts in list(stores.items()):
+        if len(sts) != 1 or name in params:
+            continue
+        asg = parents.get(id(sts[0]))
+        if not (isinstance(asg, ast.Assign) and len(asg.targets) == 1 and asg.targets[0] is sts[0] and isinstance(asg.value, ast.Tuple)):
+            continue
+        elts = asg.value.elts
+        if not elts or not all(isinstance(e, (ast.Name, ast.Constant)) for e in elts):
+            continue
+        if any(isinstance(e, ast.Name) and (len(stores.get(e.id, [])) > 1 or (e.id in params and stores.get(e.id))) for e in elts):
+            continue
+        # not in a loop, not in a nested function
+        x: Any = asg
+        bad = False
+        while id(x) in parents:
+            x = parents[id(x)]
+            if isinstance(x, (ast.For, ast.While, ast.AsyncFor)) or (isinstance(x, (ast.FunctionDef, ast.Lambda, ast.ClassDef)) and x is not fn):
+                bad = True
+                break
+        if bad:
+            continue
+        plan = []
+        for u in loads.get(name, []):
+            par = parents.get(id(u))
+            if isinstance(par, ast.Subscript) and par.value is u and isinstance(par.slice, ast.Constant) and isinstance(par.slice.value, int) and isinstance(par.ctx, ast.Load) \
+                    and -len(elts) <= par.slice.value < len(elts):
+                plan.append(("sub", par))
+            elif isinstance(par, ast.Assign) and par.value is u and len(par.targets) == 1 and isinstance(par.targets[0], (ast.Tuple, ast.List)) and len(par.targets[0].elts) == len(elts) \
+                    and not any(isinstance(t_, ast.Starred) for t_ in par.targets[0].elts):
+                plan.append(("unpack", par))
+            else:
+                plan = None
+                break
+            y: Any = u
+            while id(y) in parents:
+                y = parents[id(y)]
+                if isinstance(y, (ast.FunctionDef, ast.Lambda, ast.ClassDef)) and y is not fn:
+                    plan = None
+                    break
+            if plan is None:
+                break
+        if not plan:
+            continue
+        for kind, node in plan:
+            if kind == "sub":
+                new_ = ast.copy_location(copy.deepcopy(elts[node.slice.value]), node)
+                par = parents.get(id(node))
+                for fld, val in ast.iter_fields(par):
+                    if val is node:
+                        setattr(par, fld, new_)
+                    elif isinstance(val, list):
+                        for j, x_ in enumerate(val):
+                            if x_ is node:
+                                val[j] = new_
+            else:
+                node.value = ast.copy_location(ast.Tuple(elts=[copy.deepcopy(e) for e in elts], ctx=ast.Load()), node.value)
+        # the binding itself goes
+        holder = parents.get(id(asg))
+        for fld in ("body", "orelse", "finalbody"):
+            b = getattr(holder, fld, None)
+            if isinstance(b, list) and any(x_ is asg for x_ in b):
+                b[:] = [x_ for x_ in b if x_ is not asg] or [ast.copy_location(ast.Pass(), asg)]
+        if isinstance(holder, ast.Try):
+            for h in holder.handlers:
+                if any(x_ is asg for x_ in h.body):
+                    h.body[:] = [x_ for x_ in h.body if x_ is not asg] or [ast.copy_location(ast.Pass(), asg)]
+        return _dissolve_local_tuples(fn)  # positions changed: start over for the next candidate
+
+
+def _drop_self_assignments(tree: ast.Module) -> None:
+    """`x = x` on a plain name does nothing (it is what the else arm of `x = d if x is None else x` becomes once the expression is split)"""
+    for n in ast.walk(tree):
+        for fld in ("body", "orelse", "finalbody"):
+            b = getattr(n, fld, None)
+            if isinstance(b, list) and b and isinstance(b[0], ast.stmt):
+                keep = [st for st in b if not (isinstance(st, ast.Assign) and len(st.targets) == 1 and isinstance(st.targets[0], ast.Name)
+                                               and isinstance(st.value, ast.Name) and st.value.id == st.targets[0].id)]
+                if len(keep) != len(b):
+                    if not keep and fld == "body":
+                        keep = [ast.copy_location(ast.Pass(), b[0])]
+                    b[:] = keep
+
+
+def _eliminate_result_flags(tree: ast.Module) -> None:
+    """C40: a boolean result flag - `x = bool(E)` / a comparison / a constant; `if x: <loop that sets x = False and breaks>`; `return x` - is the early-return
+    form: the final `return x` is copied to both arms of the test (and to each `break` of a loop it directly follows), and each copy returns the
+    constant x is known to hold there: the one just assigned, or the polarity of the arm when no assignment of the arm can reach the copy.  Nothing
+    is done unless every copy resolves to a constant."""
+    def boolish(e: ast.expr) -> bool:
+        if isinstance(e, ast.Constant):
+            return isinstance(e.value, bool)
+        if isinstance(e, ast.Compare):
+            return True
+        if isinstance(e, ast.UnaryOp) and isinstance(e.op, ast.Not):
+            return True
+        if isinstance(e, ast.Call) and isinstance(e.func, ast.Name) and e.func.id in ("bool", "isinstance", "callable", "hasattr", "all", "any") and not e.keywords:
+            return True
+        if isinstance(e, ast.BoolOp):
+            return all(boolish(v) for v in e.values)
+        return False
+
+    def is_ret(st: ast.stmt, x: str) -> bool:
+        return isinstance(st, ast.Return) and isinstance(st.value, ast.Name) and st.value.id == x
+
+    def mentions(node: ast.AST, x: str) -> bool:
+        return any(isinstance(n, ast.Name) and n.id == x for n in ast.walk(node))
+
+    def resolve(stmts: List[ast.stmt], x: str, known: Optional[bool]) -> Optional[List[ast.stmt]]:
+        """stmts ends with `return x`; known: the value of x on entry (None: unknown)"""
+        stmts = [copy.deepcopy(s_) for s_ in stmts]
+        # breaks of a loop that the final return directly follows leave through a copy of it
+        if len(stmts) >= 2 and isinstance(stmts[-2], (ast.For, ast.While)) and not stmts[-2].orelse and is_ret(stmts[-1], x):
+            loop = stmts[-2]
+
+            def swap(lst: List[ast.stmt]) -> None:
+                for k, s_ in enumerate(lst):
+                    if isinstance(s_, ast.Break):
+                        lst[k] = ast.copy_location(ast.Return(value=ast.Name(id=x, ctx=ast.Load())), s_)
+                    elif isinstance(s_, (ast.For, ast.While)):
+                        continue
+                    else:
+                        for fld in ("body", "orelse", "finalbody"):
+                            b = getattr(s_, fld, None)
+                            if isinstance(b, list) and b and isinstance(b[0], ast.stmt):
+                                swap(b)
+                        if isinstance(s_, ast.Try):
+                            for h in s_.handlers:
+                                swap(h.body)
+            swap(loop.body)
+        ok = [True]
+
+        def fix(lst: List[ast.stmt], top: bool) -> None:
+            k = 0
+            while k < len(lst):
+                s_ = lst[k]
+                if is_ret(s_, x):
+                    prev = lst[k - 1] if k else None
+                    if isinstance(prev, ast.Assign) and len(prev.targets) == 1 and isinstance(prev.targets[0], ast.Name) and prev.targets[0].id == x \
+                            and isinstance(prev.value, ast.Constant) and isinstance(prev.value.value, bool):
+                        lst[k] = ast.copy_location(ast.Return(value=ast.Constant(value=prev.value.value)), s_)
+                        del lst[k - 1]
+                        continue
+                    if top and k == len(lst) - 1 and known is not None:
+                        lst[k] = ast.copy_location(ast.Return(value=ast.Constant(value=known)), s_)
+                    else:
+                        ok[0] = False
+                else:
+                    for fld in ("body", "orelse", "finalbody"):
+                        b = getattr(s_, fld, None)
+                        if isinstance(b, list) and b and isinstance(b[0], ast.stmt):
+                            fix(b, False)
+                    if isinstance(s_, ast.Try):
+                        for h in s_.handlers:
+                            fix(h.body, False)
+                k += 1
+        fix(stmts, True)
+        if not ok[0]:
+            return None
+        # the final constant is right only if no assignment of x can reach it: none is left (each was consumed by the return that followed it)
+        if any(isinstance(n, ast.Name) and n.id == x and isinstance(n.ctx, (ast.Store, ast.Del)) for s_ in stmts for n in ast.walk(s_)):
+            return None
+        if any(isinstance(n, ast.Name) and n.id == x for s_ in stmts for n in ast.walk(s_)):
+            return None  # x read somewhere else in the arm: leave the whole thing alone
+        return stmts
+
+    def do_block(fn: ast.AST, body: List[ast.stmt]) -> None:
+        i = 0
+        while i + 2 < len(body) + 0:
+            s0, s1, s2 = body[i], body[i + 1], body[i + 2]
+            i += 1
+            if not (isinstance(s0, ast.Assign) and len(s0.targets) == 1 and isinstance(s0.targets[0], ast.Name) and boolish(s0.value)):
+                continue
+            x = s0.targets[0].id
+            if not is_ret(s2, x) or (i + 2) != len(body):
+                continue
+            # every binding of x in the function is boolean, x is not captured
+            if any(isinstance(a_, ast.Assign) and any(isinstance(t_, ast.Name) and t_.id == x for t_ in a_.targets) and not boolish(a_.value) for a_ in ast.walk(fn)):
+                continue
+            if any(isinstance(g, (ast.FunctionDef, ast.Lambda, ast.ListComp, ast.SetComp, ast.DictComp, ast.GeneratorExp)) and g is not fn and mentions(g, x) for g in ast.walk(fn)):
+                continue
+            new: Optional[List[ast.stmt]] = None
+            if isinstance(s1, ast.If) and ((isinstance(s1.test, ast.Name) and s1.test.id == x) or (isinstance(s1.test, ast.UnaryOp) and isinstance(s1.test.op, ast.Not)
+                                                                                                     and isinstance(s1.test.operand, ast.Name) and s1.test.operand.id == x)):
+                pos = isinstance(s1.test, ast.Name)
+                a = resolve(list(s1.body) + [s2], x, pos)
+                b = resolve(list(s1.orelse) + [s2], x, not pos)
+                if a is not None and b is not None:
+                    new = [s0, ast.copy_location(ast.If(test=s1.test, body=a, orelse=b), s1)]
+            elif isinstance(s1, (ast.For, ast.While)) and isinstance(s0.value, ast.Constant):
+                a = resolve([s1, s2], x, s0.value.value)
+                if a is not None:
+                    new = a  # the initial binding is dead: every return is a constant now
+            if new is not None:
+                body[i - 1:i + 2] = new
+                for n_ in new:
+                    ast.fix_missing_locations(n_)
+
+    for fn in ast.walk(tree):
+        if isinstance(fn, (ast.FunctionDef, ast.AsyncFunctionDef)):
+            for n in ast.walk(fn):
+                for fld in ("body", "orelse", "finalbody"):
+                    b = getattr(n, fld, None)
+                    if isinstance(b, list) and b and isinstance(b[0], ast.stmt):
+                        do_block(fn, b)
+
+
+def _strip_bool_in_tests(tree: ast.Module) -> None:
+    """`if bool(E):` tests the truth of E, as `if E:` does (also under `not` and as an operand of `and` / `or` in a test)"""
+    def strip(e: ast.expr) -> ast.expr:
+        if isinstance(e, ast.Call) and isinstance(e.func, ast.Name) and e.func.id == "bool" and len(e.args) == 1 and not e.keywords and not isinstance(e.args[0], ast.Starred):
+            return strip(e.args[0])
+        if isinstance(e, ast.UnaryOp) and isinstance(e.op, ast.Not):
+            e.operand = strip(e.operand)
+        elif isinstance(e, ast.BoolOp):
+            e.values = [strip(v) for v in e.values]
+        return e
+    for n in ast.walk(tree):
+        if isinstance(n, (ast.If, ast.While, ast.IfExp, ast.Assert)):
+            n.test = strip(n.test)
+
+
+def _propagate_local_const_tuples(tree: ast.Module) -> None:
+    """a local bound once to a tuple display of constants (`names = ("iv", "ciphertext", "tag")`) is that display wherever it is read"""
+    for fn in ast.walk(tree):
+        if not isinstance(fn, (ast.FunctionDef, ast.AsyncFunctionDef)):
+            continue
+        stores: Dict[str, int] = {}
+        for x in ast.walk(fn):
+            if isinstance(x, ast.Name) and isinstance(x.ctx, (ast.Store, ast.Del)):
+                stores[x.id] = stores.get(x.id, 0) + 1
+        params = {a.arg for a in ast.walk(fn.args) if isinstance(a, ast.arg)}
+        if any(isinstance(x, (ast.Global, ast.Nonlocal)) for x in ast.walk(fn)):
+            continue
+        for owner in ast.walk(fn):
+            for fld in ("body", "orelse", "finalbody"):
+                blk = getattr(owner, fld, None)
+                if not (isinstance(blk, list) and blk and isinstance(blk[0], ast.stmt)):
+                    continue
+                for st in list(blk):
+                    if isinstance(st, ast.Assign) and len(st.targets) == 1 and isinstance(st.targets[0], ast.Name) and isinstance(st.value, ast.Tuple) and st.value.elts \
+                            and all(isinstance(e, ast.Constant) for e in st.value.elts) and stores.get(st.targets[0].id) == 1 and st.targets[0].id not in params \
+                            and len(st.value.elts) <= 8:
+                        nm = st.targets[0].id
+                        val = st.value
+
+                        class S(ast.NodeTransformer):
+                            def visit_Name(self, n: ast.Name):
+                                if n.id == nm and isinstance(n.ctx, ast.Load):
+                                    return ast.copy_location(copy.deepcopy(val), n)
+                                return n
+                        S().visit(fn)
+                        blk.remove(st)
+                        if not blk:
+                            blk.append(ast.copy_location(ast.Pass(), st))
+
+
+def _shift_arithmetic(tree: ast.Module) -> None:
+    """`len(x) << 3` is `len(x) * 8`, `n.bit_length() >> 3` is `n.bit_length() // 8` (left operand an int by construction: len(), bit_length(), or
+    such a shift / product itself)"""
+    def inty(e: ast.expr) -> bool:
+        if isinstance(e, ast.Call) and isinstance(e.func, ast.Name) and e.func.id == "len":
+            return True
+        if isinstance(e, ast.Call) and isinstance(e.func, ast.Attribute) and e.func.attr == "bit_length":
+            return True
+        if isinstance(e, ast.BinOp) and isinstance(e.op, (ast.Mult, ast.Add, ast.Sub, ast.FloorDiv, ast.LShift, ast.RShift)):
+            return inty(e.left) and (inty(e.right) or (isinstance(e.right, ast.Constant) and isinstance(e.right.value, int)))
+        return False
+
+    class Sh(ast.NodeTransformer):
+        def visit_BinOp(self, n: ast.BinOp):
+            self.generic_visit(n)
+            if isinstance(n.op, (ast.LShift, ast.RShift)) and isinstance(n.right, ast.Constant) and isinstance(n.right.value, int) and not isinstance(n.right.value, bool) \
+                    and 0 <= n.right.value <= 16 and inty(n.left):
+                k = ast.copy_location(ast.Constant(value=2 ** n.right.value), n.right)
+                return ast.copy_location(ast.BinOp(left=n.left, op=ast.Mult() if isinstance(n.op, ast.LShift) else ast.FloorDiv(), right=k), n)
+            return n
+    Sh().visit(tree)
+
+
 def canonicalise(tree: ast.Module, module: str = "") -> ast.Module:
     if os.environ.get("JV_CANON_C16", "0") == "1":  # off: the reference tree itself uses `all(...)` tests that rules address (is_list_str); the any / all idiom is handled in the rules
         _any_all_to_loops(tree)
+    if os.environ.get("JV_CANON_C41", "1") == "1":
+        _propagate_local_const_tuples(tree)
+        _shift_arithmetic(tree)
     if os.environ.get("JV_CANON_C15", "1") == "1":
         # only tables the rule catalogue does not know (module-level names that are not in the reference list): a loop the reference tree already has stays
         from .renames import reference
@@ -1668,6 +2007,8 @@ def canonicalise(tree: ast.Module, module: str = "") -> ast.Module:
         _segment_lists(tree)
     if os.environ.get("JV_CANON_C35", "1") == "1":
         _next_search(tree)
+    if os.environ.get("JV_CANON_C40", "1") == "1":
+        _eliminate_result_flags(tree)
     if os.environ.get("JV_CANON_C16R", "1") == "1":
         _return_any_all(tree)
     if os.environ.get("JV_CANON_C28", "1") == "1":
@@ -1675,7 +2016,12 @@ def canonicalise(tree: ast.Module, module: str = "") -> ast.Module:
         _bool_tables(tree, {q.split(":", 1)[1] for q in _ref()[1] if q.startswith(module + ":")})
     if os.environ.get("JV_CANON_C11", "1") == "1":
         tree = _Split().visit(tree)
+        _drop_self_assignments(tree)
         tree.body = _nest_guards(tree.body, False)
+    if os.environ.get("JV_CANON_C39", "1") == "1":
+        for n in ast.walk(tree):
+            if isinstance(n, (ast.FunctionDef, ast.AsyncFunctionDef)):
+                _dissolve_local_tuples(n)
     if os.environ.get("JV_CANON_C25", "1") == "1":
         _split_tuple_assigns(tree)
     tree = _Canon().visit(tree)
@@ -1692,5 +2038,6 @@ def canonicalise(tree: ast.Module, module: str = "") -> ast.Module:
             _inline_return_temps(n)
             if os.environ.get("JV_CANON_C5", "1") == "1":
                 _inline_single_use_temps(n)
+    _strip_bool_in_tests(tree)
     ast.fix_missing_locations(tree)
     return tree
